@@ -71,7 +71,28 @@ def _mul_permuted(rec, clause):
             f"sys.exit(multiply_permuted({hk!r}, {kind!r}, json.loads({json.dumps(json.dumps(model, default=str))})))\n")
 
 
+def _patterns(rec, clause):
+    parts = rec["id"].split(".")
+    kind = "parameter" if "parameter_nodes" in parts[2] else "layer"
+    variant = parts[3] if kind == "layer" else "plain"
+    n = int(parts[-1].replace("len", ""))
+    model = (clause.get("model") or {}).get("inputs", {})
+    return ("import sys, json\nfrom native.replay_patterns import replay\n"
+            f"sys.exit(replay({kind!r}, {variant!r}, {n}, json.loads({json.dumps(json.dumps(model, default=str))})))\n")
+
+
+def _reset_frame(rec, clause):
+    """re-initialisation reaching a tensor of another circuit: the native witness is the late-derived scenario of the C19 stand-in
+    (derived circuits compiled / reset after a state dict was loaded into the base circuit)"""
+    return ("import sys, importlib\nmod = importlib.import_module('native.bounded.C19')\n"
+            "from native.bounded._common import Checker\nck = Checker('C19', mod.BOUND, mod.RULE, 'quick', 0)\n"
+            "mod._late_derived_section(ck, 0)\nres = ck.res.to_json()\n"
+            "for f in res['failures'][:5]:\n    print('FAILING INPUT', f['case'], '::', f['what'])\nsys.exit(1 if res['failures'] else 0)\n")
+
+
 GENERATORS = [
+    (re.compile(r"^C(19|10|17)\.frame\.reset_parameters\."), _reset_frame),
+    (re.compile(r"^C(02|14)\.opt\.match_(parameter_nodes|layer)_pattern\."), _patterns),
     (re.compile(r"^C09\.multiply\.permuted_product_inputs\."), _mul_permuted),
     (re.compile(r"^C(01|03|06|11)\.(kernel|semiring)\."), _kernel_layers),
     (re.compile(r"^C(19|10)\.frame\."), _frame),
